@@ -955,6 +955,18 @@ func runC09(c *Cfg) {
 			}
 		}
 	}
+	// the failing item is slow (the controller dwells at the saturated points, well beyond any submit timeout one might
+	// think of): the items queued behind it are still not started by anything but the c workers
+	for _, cc := range []int{1, 2} {
+		for _, n := range []int{8, 12} {
+			it := make([]ItemScript, n)
+			for j := range it {
+				it[j].K = 1
+			}
+			it[0].K = 2
+			cases = append(cases, &BatchCase{Family: "stop-with-slow-failing-item", N: n, C: cc, Stop: true, SetMode: true, Budget: 1, Items: it, Shape: "results", Build: "builder", ExecStyle: []string{"result", "any"}[cc%2], Gated: true, Policy: "first", DwellMs: 350})
+		}
+	}
 	// large stop-mode batches (64 items and more) on a node that has already run a large batch to its end: what the
 	// earlier run left behind does not turn never-executed items into successes
 	for _, n := range []int{64, 96, 130} {
